@@ -328,6 +328,15 @@ def run(ctx):
                    'HEX': '10000000001'}[src]
             for dst in ('DEC', 'BIN', 'OCT', 'HEX'):
                 if dst != src:
+                    # padded with zeros up to 10 digits: the same number;
+                    # beyond 10 characters: #NUM!, zeros or not
+                    for total in (5, 10, 11, 12, 15):
+                        for digits in (good, '7' if src != 'BIN' else '1',
+                                       '0'):
+                            R.library(f'{src}2{dst}', digits.rjust(total, '0'),
+                                      OMIT, f'text-zero-padded-{total}')
+                        R.formula(f'{src}2{dst}', good.rjust(total, '0'),
+                                  OMIT, f'text-zero-padded-{total}')
                     R.library(f'{src}2{dst}', s11, OMIT, 'text-11-digits')
                     R.library(f'{src}2{dst}', '1.5', OMIT, 'text-fraction')
                     R.library(f'{src}2{dst}', 1.5, OMIT, 'float-fraction')
